@@ -11,10 +11,9 @@ package main
 //                    re-serialisation between steps) - the model replays the same steps
 //                    symbolically on the value.
 //
-// Inputs kept out of the compared stream (said in props/C02.json): object keys (including entity
-// names and key IDs, which are keys of the signatures object) that need escaping, and number
-// literals starting -0. / -0e - CanonicalJSON mishandles them until the C01 repairs land;
-// duplicate keys and ill-formed Unicode (outside the domain of the JSON properties).
+// Inputs kept out of the compared stream (said in props/C02.json): duplicate keys and ill-formed
+// Unicode (outside the domain of the JSON properties).  Keys, entity names and key IDs that need
+// escaping and -0.x / -0e number literals are in the stream (CanonicalJSON repairs F1-F3 landed).
 
 import (
 	"bytes"
@@ -250,8 +249,10 @@ type c2signer struct{ name, kid, seed string }
 
 func c2seed(i int) string { return fmt.Sprintf("seed-%04d-%s", i, strings.Repeat("x", 22)) }
 
-var c2names = []string{"example.org", "matrix.org", "a", "localhost:8448", "EXAMPLE.org", "é.example", "xn--e.example", "", "signatures", "b.c", "unsigned", "*", "日本"}
-var c2kids = []string{"ed25519:1", "ed25519:auto", "ed25519:a_b", "ed25519:2", "ed25519:", "x", "", "ED25519:1", "ed25519:1 ", "ed25519:é"}
+var c2names = []string{"example.org", "matrix.org", "a", "localhost:8448", "EXAMPLE.org", "é.example", "xn--e.example", "", "signatures", "b.c", "unsigned", "*", "日本",
+	`ex"ample.org`, `back\slash.org`, "ctl\x01name", "tab\tname", `"`}
+var c2kids = []string{"ed25519:1", "ed25519:auto", "ed25519:a_b", "ed25519:2", "ed25519:", "x", "", "ED25519:1", "ed25519:1 ", "ed25519:é",
+	`ed25519:"q"`, `ed25519:\`, "ed25519:\n", "ed25519:\x00"}
 
 func c2garbageSig(r *rand.Rand) string {
 	switch r.Intn(10) {
@@ -342,6 +343,8 @@ func stepDel(path []string) []interface{}           { return []interface{}{"del"
 func stepCopy(a, b []string) []interface{}          { return []interface{}{"copy", c2strs(a...), c2strs(b...)} }
 func stepSigop(s c2signer, op string) []interface{} { return []interface{}{"sigop", s.name, s.kid, op} }
 func stepRepr() []interface{}                       { return []interface{}{"repr"} }
+
+var c2escKeys = []string{`q"uote`, `back\\slash`, "tab\tkey", "nl\nkey", "\x01ctl", `"`, `\\`, "\x1f"}
 
 var c2mutCount int
 
@@ -459,6 +462,59 @@ func (g *c2gen) breakingEdit(class int, obj *c2obj) (steps [][]interface{}, name
 				return [][]interface{}{stepSet(a, vb), stepSet(b, va)}, "swap"
 			}
 		}
+	case 10, 11: // sign flip of a number; class 11: of a -0.x / -0e literal (bare -0 = 0 is no change)
+		var cands [][]string
+		for _, p := range all {
+			v, _ := c2get(obj, p)
+			n, ok := v.(c2num)
+			if !ok || n == "0" || n == "-0" {
+				continue
+			}
+			isNegZero := false
+			for _, z := range c2negZero {
+				if string(n) == z {
+					isNegZero = true
+				}
+			}
+			if class == 10 || isNegZero {
+				cands = append(cands, p)
+			}
+		}
+		if p := pickP(cands); p != nil {
+			v, _ := c2get(obj, p)
+			n := string(v.(c2num))
+			if strings.HasPrefix(n, "-") {
+				n = n[1:]
+			} else {
+				n = "-" + n
+			}
+			if class == 11 {
+				return [][]interface{}{stepSet(p, c2num(n))}, "negzero-sign-flip"
+			}
+			return [][]interface{}{stepSet(p, c2num(n))}, "sign-flip"
+		}
+	case 12: // change under, or of, a key that needs escaping in canonical form
+		var cands [][]string
+		for _, p := range all {
+			if strings.ContainsAny(p[len(p)-1], "\"\\\x01\x1f\t\n\b\f\r") {
+				cands = append(cands, p)
+			}
+		}
+		if p := pickP(cands); p != nil {
+			switch g.r.Intn(3) {
+			case 0:
+				return [][]interface{}{stepSet(p, c2fresh())}, "escaped-key-value-change"
+			case 1:
+				return [][]interface{}{stepDel(p)}, "escaped-key-deletion"
+			default: // the key itself: one escaped character replaced by another
+				v, _ := c2get(obj, p)
+				q := append([]string{}, p...)
+				q[len(q)-1] = strings.NewReplacer("\"", "\\", "\\", "\"", "\t", "\n", "\n", "\t", "\x01", "\x02", "\x1f", "\x1e", "\b", "\f", "\f", "\b").Replace(q[len(q)-1])
+				if _, exists := c2get(obj, q); !exists {
+					return [][]interface{}{stepDel(p), stepSet(q, v)}, "escaped-key-rename"
+				}
+			}
+		}
 	case 9: // move unsigned content into the signed part, or a signed member into unsigned
 		if p := pickP(top); p != nil {
 			v, _ := c2get(obj, p)
@@ -468,7 +524,7 @@ func (g *c2gen) breakingEdit(class int, obj *c2obj) (steps [][]interface{}, name
 	return nil, ""
 }
 
-const c2breakingClasses = 10
+const c2breakingClasses = 13
 
 // edits that must not affect any signature
 func (g *c2gen) benignEdit(class int, signers []c2signer) ([][]interface{}, string) {
@@ -654,6 +710,15 @@ func genC02(c *Ctx) {
 				signers := g.signers(1 + c.Rng.Intn(3))
 				for tries := 0; tries < 20 && edit == nil; tries++ {
 					start = g.object(2, 1, 5, c2topKeys)
+					if kind.name == "breaking" && class >= 11 || c.Rng.Intn(4) == 0 {
+						// a -0.x literal under a key that needs escaping, at the top or one level down
+						m := c2obj1(g.pick(c2escKeys), c2num(g.pick(c2negZero)))
+						if c.Rng.Intn(2) == 0 {
+							start.set(g.pick(c2escKeys), m)
+						} else {
+							start.set(m.keys[0], m.vals[0])
+						}
+					}
 					if c.Rng.Intn(2) == 0 {
 						start.set("unsigned", g.object(1, 0, 2, c2nestedKeys))
 					}
